@@ -13,7 +13,7 @@
 From Coq Require Import ZifyBool.
 From Verif Require Import Base.Prelude Gen.ParseLitGen Model.Escape Model.ParseLit Model.GroupMap Model.CharClass
   Model.Parser Proofs.ParseLitProofs Proofs.GMBase Proofs.ParserScan Proofs.ParserTree Proofs.ParserMain Proofs.ParserPre
-  Proofs.ParserProofs Proofs.ParserOkTree Proofs.ParserOkMain Proofs.ParserOkPre.
+  Proofs.ParserProofs Proofs.GMPrescan Proofs.ParserOkTree Proofs.ParserOkMain Proofs.ParserOkPre.
 
 (* ---------------------------------------------------------------- option words up to RightToLeft *)
 Definition oeqv (a b : Z) : Prop := Z.lor a 64 = Z.lor b 64.
@@ -111,6 +111,23 @@ Proof.
   intros H. inversion H; subst. eapply scan_decimal_tskip. exact E.
 Qed.
 
+Lemma scan_decimal_ge p : forall i v q, scan_decimal i p = Ok (v, q) -> 0 <= i -> i <= v.
+Proof.
+  induction p as [|c p IH]; intros i v q H Hi; cbn [scan_decimal] in H; [inversion H; lia|].
+  destruct ((c - 48 <? 0) || (9 <? c - 48)) eqn:E; [inversion H; lia|].
+  destruct ((214748364 <? i) || ((i =? 214748364) && (7 <? c - 48))); [discriminate|].
+  specialize (IH _ _ _ H ltac:(lia)). lia.
+Qed.
+
+Lemma decimal_nonzero c2 cur' n q : (49 <=? c2) && (c2 <=? 57) = true -> decimal (c2 :: cur') = POk (n, q) -> (n =? 0) = false.
+Proof.
+  intros Hd H. unfold decimal, of_res in H. destruct (scan_decimal 0 (c2 :: cur')) as [[v' q'']|e|w|] eqn:E; try discriminate.
+  inversion H; subst. cbn [scan_decimal] in E.
+  destruct ((c2 - 48 <? 0) || (9 <? c2 - 48)) eqn:E1; [lia|].
+  destruct ((214748364 <? 0) || ((0 =? 214748364) && (7 <? c2 - 48))); [discriminate|].
+  apply scan_decimal_ge in E; lia.
+Qed.
+
 Section Agree.
 Variable is_word_char : Z -> bool.
 Variable to_lower : Z -> Z.
@@ -120,7 +137,7 @@ Variable cat_in : Z -> Z -> bool.
 Variable cat_name : list Z -> Z.
 
 (* the oracle tie *)
-Hypothesis HW : forall c, is_word_char c = true -> negb (zmem c [33; 35; 39; 40; 41; 45; 60; 61; 62; 91; 92]) = true.
+Hypothesis HW : forall c, is_word_char c = true -> negb (zmem c [33; 35; 39; 40; 41; 45; 60; 61; 62; 63; 91; 92]) = true.
 Hypothesis HD : forall c, (49 <=? c) && (c <=? 57) = true -> is_word_char c = true.
 
 Lemma word_ptriv x c : is_word_char c = true -> ptriv x c = true.
@@ -463,5 +480,523 @@ Proof.
 Qed.
 
 End BsAgree.
+
+
+(* ---------------------------------------------------------------- what only grows along the pre-scan *)
+Lemma reach_mono st p : reach st p ->
+  incl (c_caps (cs_c st)) (c_caps (cs_c cstF)) /\
+  (forall s v, aget s (names_of (cs_c st)) = Some v -> aget s (names_of (cs_c cstF)) = Some v).
+Proof.
+  intros [f H].
+  apply (prescan_loop_gen is_word_char to_lower simple_fold cat_in cat_name mco
+           (fun c => incl (c_caps (cs_c st)) (c_caps c) /\
+                     (forall s v, aget s (names_of (cs_c st)) = Some v -> aget s (names_of c) = Some v))
+           ) with (fuel := f) (st := st) (p := p); [| | | split; [apply incl_refl | auto] | exact H].
+  - intros c [I N]. unfold note_auto. split.
+    + intros k Hk. apply note_slot_caps. right. cbn. apply I. exact Hk.
+    + destruct (note_slot_fields (c_autocap c) (mkC (c_autocap c + 1) (c_caps c) (c_capcount c) (c_captop c) (c_capnames c) (c_capnamelist c))) as [_ [F2 _]].
+      unfold names_of in *. rewrite F2. cbn. exact N.
+  - intros _ c i [I N] _. split.
+    + intros k Hk. apply note_slot_caps. right. apply I. exact Hk.
+    + destruct (note_slot_fields i c) as [_ [F2 _]]. unfold names_of in *. rewrite F2. exact N.
+  - intros o s c c' [I N] E. unfold note_name_pr in E.
+    destruct (note_name mco (useE o) s c) as [c2| | |] eqn:NN; try discriminate. inversion E; subst c2. clear E.
+    unfold note_name in NN. destruct (aget s (names_of c)) as [v0|] eqn:Eg.
+    + destruct (useE o); [discriminate|]. inversion NN; subst. cbn. split; [exact I|].
+      intros s0 v Hs. specialize (N s0 v Hs). unfold names_of in *. cbn. destruct (c_capnames c); [exact N | discriminate].
+    + assert (NEW : forall s0 v w, aget s0 (names_of (cs_c st)) = Some v -> aget s0 (aset s w (names_of c)) = Some v).
+      { intros s0 v w Hs. specialize (N s0 v Hs). rewrite aget_aset_other; [exact N|]. intros ->. congruence. }
+      destruct mco; inversion NN; subst; clear NN.
+      * split.
+        -- intros k Hk. cbn. apply note_slot_caps. right. cbn. apply I. exact Hk.
+        -- match goal with |- context [note_slot ?i ?cc] => destruct (note_slot_fields i cc) as [_ [F2 _]] end.
+           unfold names_of at 2. cbn. rewrite F2. cbn. intros s0 v Hs. apply NEW. exact Hs.
+      * split; [exact I|]. unfold names_of at 2. cbn. intros s0 v Hs. apply NEW. exact Hs.
+Qed.
+
+
+(* ---------------------------------------------------------------- the literal run, quantifiers *)
+Lemma nonstopper_ptriv o c : is_stopper o c = false -> ptriv (useX o) c = true.
+Proof.
+  unfold is_stopper. intros H. apply ptriv_intro; [intros -> | intros -> | intros -> | intros -> | intros X ->];
+    destruct (useX o); try discriminate; vm_compute in H; discriminate.
+Qed.
+
+Lemma take_run_tskip o p : forall run p1, take_run o p = (run, p1) -> tskip (useX o) p p1.
+Proof.
+  induction p as [|ch p' IH]; intros run p1 H; cbn [take_run] in H; [inversion H; apply tskip_refl|].
+  destruct (is_stopper o ch && (negb (ch =? 123) || is_true_quantifier (ch :: p'))) eqn:E; [inversion H; apply tskip_refl|].
+  destruct (take_run o p') as [r rest] eqn:Et. inversion H; subst.
+  eapply tskip_trans; [apply tskip_cons | eapply IH; reflexivity].
+  destruct (is_stopper o ch) eqn:Es; [|apply nonstopper_ptriv; exact Es].
+  cbn [andb] in E. assert (ch = 123) by lia. subst ch. apply ptriv_intro; intros; lia.
+Qed.
+
+Definition ctl (st : mst) : Z * list Z * bool * Z := (ms_o st, ms_os st, ms_ign st, ms_autocap st).
+
+Local Notation add_concatenate := (add_concatenate cat_in).
+Local Notation add_concatenate3 := (add_concatenate3 cat_in).
+Local Notation scan_quantifier := (scan_quantifier cat_in).
+Local Notation after_unit := (after_unit cat_in).
+
+Lemma add_concatenate_ctl st st' : add_concatenate st = POk st' -> ctl st' = ctl st.
+Proof.
+  unfold Parser.add_concatenate. destruct (ms_unit st) as [u|]; [|discriminate].
+  destruct (add_child cat_in (ms_concat st) u); cbn [of_res pbind]; try discriminate. intros H. inversion H; reflexivity.
+Qed.
+
+Lemma add_concatenate3_ctl st lazy mn mx st' : add_concatenate3 st lazy mn mx = POk st' -> ctl st' = ctl st.
+Proof.
+  unfold Parser.add_concatenate3. destruct (ms_unit st) as [u|]; [|discriminate].
+  destruct (make_quantifier cat_in u lazy mn mx) as [qq| | |]; cbn [of_res pbind]; try discriminate.
+  destruct (add_child cat_in (ms_concat st) qq); cbn [of_res pbind]; try discriminate. intros H. inversion H; reflexivity.
+Qed.
+
+Lemma brace_counts_tskip x p1 mn mx q : brace_counts p1 = POk (Some (mn, mx, q)) -> tskip x p1 q.
+Proof.
+  unfold brace_counts. intros H.
+  destruct (decimal p1) as [[mn0 q0]|e q0| | |] eqn:D; cbn [pbind] in H; try discriminate.
+  pose proof (decimal_tskip x _ _ _ D) as T0.
+  match type of H with pbind ?m _ = _ => destruct m as [[mx0 q2]|e q2| | |] eqn:D2 end; cbn [pbind] in H; try discriminate.
+  destruct ((length q0 =? length p1)%nat || negb (hd_is q2 125)) eqn:EC; [discriminate|]. inversion H; subst.
+  assert (T2 : tskip x q0 q2).
+  { destruct ((length q0 <? length p1)%nat && hd_is q0 44) eqn:E1; [|inversion D2; subst; apply tskip_refl].
+    assert (TC : tskip x q0 (tl q0)) by (apply tskip_tl with (c := 44); [apply andb_prop in E1; tauto | apply ptriv_intro; intros; lia]).
+    destruct (is_nil (tl q0) || hd_is (tl q0) 125); [inversion D2; subst; exact TC|].
+    eapply tskip_trans; [exact TC | eapply decimal_tskip; exact D2]. }
+  eapply tskip_trans; [exact T0|]. eapply tskip_trans; [exact T2|].
+  apply tskip_tl with (c := 125); [|apply ptriv_intro; intros; lia].
+  destruct (hd_is q2 125); [reflexivity|]. rewrite orb_true_r in EC. discriminate.
+Qed.
+
+(* the cursor after a quantifier, for a pre-scan state with the same x option and no pending ignoreNextParen *)
+Lemma scan_quantifier_cursor st p st' q cs : oeqv (ms_o st) (cs_o cs) -> cs_ign cs = false -> ms_unit st <> None ->
+  scan_quantifier st p = POk (st', q) -> ctl st' = ctl st /\ (reach cs p <-> reach cs q).
+Proof.
+  intros Ho Hi Hu E. unfold Parser.scan_quantifier in E. destruct p as [|ch p1]; [discriminate|].
+  pose proof (oeqv_useX _ _ Ho) as HX.
+  destruct (ms_unit st) as [u|] eqn:Eu; [|congruence].
+  match type of E with pbind ?m _ = _ => destruct m as [[[[mn mx] q0]|]|e q0| | |] eqn:EA end; cbn [pbind] in E; try discriminate.
+  - assert (T0 : tskip (useX (cs_o cs)) (ch :: p1) q0).
+    { destruct (ch =? 42) eqn:C1; [inversion EA; subst; apply tskip_cons; apply ptriv_intro; intros; lia|].
+      destruct (ch =? 63) eqn:C2; [inversion EA; subst; apply tskip_cons; apply ptriv_intro; intros; lia|].
+      destruct (ch =? 43) eqn:C3; [inversion EA; subst; apply tskip_cons; apply ptriv_intro; intros; lia|].
+      destruct (ch =? 123) eqn:C4; [|discriminate].
+      eapply tskip_trans; [apply tskip_cons; apply ptriv_intro; intros; lia | eapply brace_counts_tskip; exact EA]. }
+    destruct (scan_blank_full (ms_o st) q0) as [q1|e q1| | |] eqn:EB; cbn [pbind] in E; try discriminate.
+    unfold scan_blank_full in EB. rewrite HX in EB.
+    destruct (if hd_is q1 63 then (true, tl q1) else (false, q1)) as [lazy q2] eqn:EL.
+    destruct (mx <? mn); [discriminate|].
+    destruct (add_concatenate3 st lazy mn mx) as [st1|e q3| | |] eqn:E3; cbn [pbind] in E; try discriminate.
+    inversion E; subst. split; [eapply add_concatenate3_ctl; exact E3|].
+    rewrite (reach_tskip cs _ _ T0). rewrite (blank_reach cs Hi q0 q1 EB).
+    destruct (hd_is q1 63) eqn:EH; inversion EL; subst; [|reflexivity].
+    apply reach_tskip. apply tskip_tl with (c := 63); [exact EH | apply ptriv_intro; intros; lia].
+  - destruct (add_concatenate st) as [st1|e q3| | |] eqn:E1; cbn [pbind] in E; try discriminate.
+    inversion E; subst. split; [eapply add_concatenate_ctl; exact E1 | reflexivity].
+Qed.
+
+Lemma after_unit_cursor st p st' q wq cs : oeqv (ms_o st) (cs_o cs) -> cs_ign cs = false -> ms_unit st <> None ->
+  after_unit st p = POk (st', q, wq) -> ctl st' = ctl st /\ (reach cs p <-> reach cs q).
+Proof.
+  intros Ho Hi Hu E. unfold Parser.after_unit in E.
+  destruct (scan_blank_full (ms_o st) p) as [p1|e p1| | |] eqn:EB; cbn [pbind] in E; try discriminate.
+  unfold scan_blank_full in EB. rewrite (oeqv_useX _ _ Ho) in EB.
+  rewrite (blank_reach cs Hi p p1 EB).
+  destruct (is_nil p1 || negb (is_true_quantifier p1)).
+  - destruct (add_concatenate st) as [st1|e q3| | |] eqn:E1; cbn [pbind] in E; try discriminate.
+    inversion E; subst. split; [eapply add_concatenate_ctl; exact E1 | reflexivity].
+  - destruct (scan_quantifier st p1) as [[st1 q1]|e q3| | |] eqn:E1; cbn [pbind] in E; try discriminate.
+    inversion E; subst. eapply scan_quantifier_cursor; eassumption.
+Qed.
+
+
+(* ---------------------------------------------------------------- runs of pre-scan steps *)
+Inductive psteps : cst -> list Z -> cst -> list Z -> Prop :=
+| ps_refl cs p : psteps cs p cs p
+| ps_step cs ch p1 cs1 q1 cs' q : prescan_step mco cs ch p1 = POk (cs1, q1) -> psteps cs1 q1 cs' q -> psteps cs (ch :: p1) cs' q.
+
+Lemma psteps_reach cs p cs' q : psteps cs p cs' q -> (reach cs p <-> reach cs' q).
+Proof.
+  induction 1 as [|cs ch p1 cs1 q1 cs' q E _ IH]; [reflexivity|].
+  rewrite reach_cons, <- IH. split.
+  - intros [st' [q' [E' R]]]. rewrite E in E'. inversion E'; subst. exact R.
+  - intros R. exists cs1, q1. auto.
+Qed.
+
+Lemma psteps_trans cs p cs1 q1 cs2 q2 : psteps cs p cs1 q1 -> psteps cs1 q1 cs2 q2 -> psteps cs p cs2 q2.
+Proof. induction 1; [auto|]. intros H2. eapply ps_step; [eassumption | auto]. Qed.
+
+Lemma psteps_one cs ch p1 cs1 q1 : prescan_step mco cs ch p1 = POk (cs1, q1) -> psteps cs (ch :: p1) cs1 q1.
+Proof. intros E. eapply ps_step; [exact E | apply ps_refl]. Qed.
+
+Lemma psteps_tskip cs p q : tskip (useX (cs_o cs)) p q -> psteps cs p cs q.
+Proof.
+  intros [seg [-> F]]. induction seg as [|c seg IH]; [apply ps_refl|].
+  cbn [forallb] in F. apply andb_prop in F. destruct F as [F1 F2]. cbn [app].
+  eapply ps_step; [apply prescan_step_ptriv; exact F1 | apply IH; exact F2].
+Qed.
+
+Lemma psteps_inv (J : cstate -> Prop) :
+  (forall c, J c -> J (note_auto c)) ->
+  (mco = false -> forall c i, J c -> 0 <= i <= 2147483647 -> J (note_slot i c)) ->
+  (forall o s c c', J c -> note_name_pr mco o s c = POk c' -> J c') ->
+  forall cs p cs' q, psteps cs p cs' q -> J (cs_c cs) -> J (cs_c cs').
+Proof.
+  intros J1 J2 J3 cs p cs' q H. induction H as [|cs ch p1 cs1 q1 cs' q E _ IH]; [auto|].
+  intros Hc. apply IH. eapply (prescan_step_gen is_word_char to_lower simple_fold cat_in cat_name mco J J1 J2 J3); eassumption.
+Qed.
+
+Lemma psteps_cw cs p cs' q : psteps cs p cs' q -> cw (cs_c cs) -> cw (cs_c cs').
+Proof.
+  apply psteps_inv; [apply note_auto_cw | intros _ c i W Hi; apply note_slot_cw; [exact W | lia] | intros o s c c'; apply note_name_pr_cw].
+Qed.
+
+Lemma psteps_cinv cs p cs' q : psteps cs p cs' q -> cinv mco (cs_c cs) -> cinv mco (cs_c cs').
+Proof.
+  apply psteps_inv.
+  - apply note_auto_cinv.
+  - intros Em c i W Hi. revert W. rewrite Em. intros W. apply note_slot_cinv_plain; [exact W | lia].
+  - intros o s c c' W E. pose proof (note_name_pr_ok mco o s c W) as N. rewrite E in N. exact N.
+Qed.
+
+Definition near (x : bool) (p q : list Z) : Prop := tskip x p q \/ tskip x q p.
+
+Lemma reach_near cs p q : near (useX (cs_o cs)) p q -> (reach cs p <-> reach cs q).
+Proof. intros [H|H]; [apply reach_tskip; exact H | symmetry; apply reach_tskip; exact H]. Qed.
+
+Lemma near_refl x p : near x p p.
+Proof. left. apply tskip_refl. Qed.
+
+
+(* ---------------------------------------------------------------- "(" : scanGroupOpen against the pre-scan *)
+Variable tb : GroupMap.ptree.
+Hypothesis HF2 : mco = true -> forall s v, aget s (names_of (cs_c cstF)) = Some v -> ct_name (captab_main tb) s = Some v.
+
+Lemma step40 cs p3 : prescan_step mco cs 40 p3 = prescan_open mco cs (40 :: p3) p3.
+Proof. reflexivity. Qed.
+
+Lemma step41 cs p1 o' r : cs_os cs = o' :: r -> prescan_step mco cs 41 p1 = POk (mkCS (cs_c cs) o' r (cs_ign cs), p1).
+Proof. intros H. unfold Parser.prescan_step. cbn [Z.eqb Pos.eqb]. rewrite H. reflexivity. Qed.
+
+Lemma note_auto_autocap c : c_autocap (note_auto c) = c_autocap c + 1 /\ In (c_autocap c) (c_caps (note_auto c)).
+Proof.
+  unfold note_auto. match goal with |- context [note_slot ?k ?cc] => destruct (note_slot_fields k cc) as [F1 _] end.
+  split; [rewrite F1; reflexivity | apply note_slot_caps; left; reflexivity].
+Qed.
+
+(* the state both passes are in after the "(" *)
+Definition open_post (cs : cst) (o : Z) (ign : bool) (a : Z) (p3 : list Z) (g : option rnode) (v' : gvars) (q' : list Z) : Prop :=
+  exists cs' qp,
+    psteps cs (40 :: p3) cs' qp /\ near (useX (cs_o cs')) qp q' /\
+    oeqv (gv_o v') (cs_o cs') /\ cs_ign cs' = gv_ign v' /\ c_autocap (cs_c cs') = gv_autocap v' /\
+    cs_os cs' = (match g with Some _ => cs_o cs :: cs_os cs | None => cs_os cs end) /\
+    (gv_ign v' = true -> hd_is q' 40 = true /\ starts_qhash (tl q') = false) /\
+    (hd_is p3 63 = false -> (useN o || ign) = false -> In a (c_caps (cs_c cs'))).
+
+(* what noteCaptureName does to the automatic number = what consumeCaptureSlot does in the main pass *)
+Lemma name_bump cs0 s c' q : cinv mco (cs_c cs0) ->
+  note_name_pr mco (cs_o cs0) s (cs_c cs0) = POk c' ->
+  reach (mkCS c' (cs_o cs0) (cs_os cs0) false) q ->
+  c_autocap c' = consume_slot mco (match ct_name (captab_main tb) s with Some g => g | None => -1 end) (c_autocap (cs_c cs0)).
+Proof.
+  intros CI E R. unfold note_name_pr in E.
+  destruct (note_name mco (useE (cs_o cs0)) s (cs_c cs0)) as [c2| | |] eqn:NN; try discriminate. inversion E; subst c2. clear E.
+  unfold consume_slot. destruct mco eqn:Em; cbn [andb].
+  2:{ unfold note_name in NN. destruct (aget s (names_of (cs_c cs0))); [destruct (useE (cs_o cs0)); [discriminate|]|]; inversion NN; reflexivity. }
+  destruct (reach_mono _ _ R) as [_ MN]. cbn [cs_c] in MN.
+  destruct CI as [A N M D]. destruct (D eq_refl) as [D1 [D2 [D3 D4]]].
+  unfold note_name in NN. destruct (aget s (names_of (cs_c cs0))) as [v0|] eqn:Eg.
+  - destruct (useE (cs_o cs0)); [discriminate|]. inversion NN; subst c'. cbn [c_autocap].
+    assert (K : ct_name (captab_main tb) s = Some v0).
+    { apply HF2; [reflexivity|]. apply MN. unfold names_of. cbn. unfold names_of in Eg. destruct (c_capnames (cs_c cs0)); [exact Eg | discriminate]. }
+    rewrite K. specialize (D4 _ _ Eg). destruct (v0 =? c_autocap (cs_c cs0)) eqn:EV; [lia | reflexivity].
+  - inversion NN; subst c'. clear NN.
+    match goal with |- context [note_slot ?k ?cc] => destruct (note_slot_fields k cc) as [F1 [F2 _]] end.
+    cbn [c_autocap]. rewrite F1. cbn [c_autocap].
+    assert (K : ct_name (captab_main tb) s = Some (c_autocap (cs_c cs0))).
+    { apply HF2; [reflexivity|]. apply MN. unfold names_of at 1. cbn [c_capnames]. rewrite F2. cbn [c_capnames]. apply aget_aset_same. }
+    rewrite K, Z.eqb_refl. reflexivity.
+Qed.
+
+
+Section OpenSim.
+Variable cs : cst.
+Variable o a : Z.
+Hypothesis Ho : oeqv o (cs_o cs).
+Hypothesis HE : useE o = false.
+Hypothesis Ha : c_autocap (cs_c cs) = a.
+Hypothesis Hci : cinv mco (cs_c cs).
+
+Local Notation st1 := (mkCS (cs_c cs) (cs_o cs) (cs_o cs :: cs_os cs) (cs_ign cs)).
+Local Notation tbm := (captab_main tb).
+Local Notation xx := (useX (cs_o cs)).
+
+Lemma HEb' : useE (cs_o cs) = false.
+Proof. rewrite <- (oeqv_useE _ _ Ho). exact HE. Qed.
+
+Lemma consume_minus1 : consume_slot mco (-1) a = a.
+Proof.
+  unfold consume_slot. destruct mco; [|reflexivity]. cbn [andb].
+  destruct Hci as [A _ _ _]. rewrite Ha in A. destruct (-1 =? a) eqn:E; [lia | reflexivity].
+Qed.
+
+(* the state the pre-scan is in after filing the name s *)
+Lemma named_state s c' q :
+  note_name_pr mco (cs_o cs) s (cs_c cs) = POk c' ->
+  reach (set_cs_ign (set_cs_c st1 c') false) q ->
+  c_autocap c' = consume_slot mco (match ct_name tbm s with Some g => g | None => -1 end) a.
+Proof. intros E R. rewrite <- Ha. exact (name_bump st1 s c' q Hci E R). Qed.
+
+Definition named_post (r : pr (cst * list Z)) (v' : gvars) (q' : list Z) : Prop :=
+  exists cs1 q1, r = POk (cs1, q1) /\ tskip xx q1 q' /\
+    cs_o cs1 = cs_o cs /\ cs_os cs1 = cs_o cs :: cs_os cs /\ cs_ign cs1 = false /\
+    gv_o v' = o /\ gv_ign v' = false /\ c_autocap (cs_c cs1) = gv_autocap v'.
+
+(* the tail of a group name in the main pass: "-name" and the closing character *)
+Lemma group_name_tail close capnum proceed q (r2 : pr (Z * list Z)) uncapnum q3 :
+  (close = 39 \/ close = 62) ->
+  r2 = (if (negb (capnum =? -1) || proceed) && hd_is q 45 then
+          let q1 := tl q in
+          match q1 with
+          | [] => PE PE_InvalidGroupName q1
+          | c3 :: _ =>
+              if ParseLit.is_digit c3 then
+                pdo r <- decimal q1 ;
+                let '(u, q2) := r in
+                if negb (ct_slot tbm u) then PE E_UndefinedBackRef q2
+                else if hd_is_not q2 close then PE PE_InvalidGroupName q2
+                else POk (u, q2)
+              else if is_word_char c3 then
+                let '(nm, q2) := scan_word is_word_char q1 in
+                match ct_name tbm nm with
+                | None => PE E_UndefinedNameRef q2
+                | Some u => if hd_is_not q2 close then PE PE_InvalidGroupName q2 else POk (u, q2)
+                end
+              else PE PE_InvalidGroupName q1
+          end
+        else POk (-1, q)) ->
+  r2 = POk (uncapnum, q3) -> hd_is q3 close = true -> tskip xx q (tl q3).
+Proof.
+  intros Hc -> H HC.
+  assert (TC : tskip xx q3 (tl q3)).
+  { apply tskip_tl with (c := close); [exact HC | destruct Hc as [-> | ->]; apply ptriv_intro; intros; lia]. }
+  destruct ((negb (capnum =? -1) || proceed) && hd_is q 45) eqn:E1; [|inversion H; subst; exact TC].
+  assert (T1 : tskip xx q (tl q)) by (apply tskip_tl with (c := 45); [apply andb_prop in E1; tauto | apply ptriv_intro; intros; lia]).
+  cbv zeta in H. destruct (tl q) as [|c3 q1'] eqn:Eq1; [discriminate|].
+  destruct (ParseLit.is_digit c3).
+  - destruct (decimal (c3 :: q1')) as [[u q2]|e q2| | |] eqn:D; cbn [pbind] in H; try discriminate.
+    destruct (negb (ct_slot tbm u)); [discriminate|]. destruct (hd_is_not q2 close); [discriminate|]. inversion H; subst.
+    eapply tskip_trans; [exact T1|]. eapply tskip_trans; [eapply decimal_tskip; exact D | exact TC].
+  - destruct (is_word_char c3); [|discriminate].
+    pose proof (scan_word_tskip xx (c3 :: q1')) as W. destruct (scan_word is_word_char (c3 :: q1')) as [nm q2]. cbn [snd] in W.
+    destruct (ct_name tbm nm); [|discriminate]. destruct (hd_is_not q2 close); [discriminate|]. inversion H; subst.
+    eapply tskip_trans; [exact T1|]. eapply tskip_trans; [exact W | exact TC].
+Qed.
+
+Lemma note_name_pr_total ob s c : useE ob = false -> exists c', note_name_pr mco ob s c = POk c'.
+Proof.
+  intros H. unfold note_name_pr, note_name. rewrite H.
+  destruct (aget s (names_of c)); [eexists; reflexivity|]. destruct mco; eexists; reflexivity.
+Qed.
+
+Lemma consume_nonmco k : mco = false -> consume_slot mco k a = a.
+Proof. intros H. unfold consume_slot. rewrite H. reflexivity. Qed.
+
+Lemma mco_cases : mco = true \/ mco = false.
+Proof. destruct mco; auto. Qed.
+
+Lemma named_sim close cur g v' q' :
+  (close = 39 \/ close = 62) ->
+  Parser.group_name is_word_char tbm mco (mkGV o false a) close cur = POk (g, v', q') ->
+  (forall cs1 q1, prescan_named is_word_char mco st1 cur = POk (cs1, q1) -> reach cs1 q1) ->
+  named_post (prescan_named is_word_char mco st1 cur) v' q' /\ g <> None.
+Proof.
+  intros Hc E R. unfold Parser.group_name in E. destruct cur as [|c2 cur']; [discriminate|].
+  cbn [gv_o gv_ign gv_autocap] in E. rewrite HE in E.
+  set (cur := c2 :: cur') in *.
+  (* the end of the main pass' scan, once the first part (capnum, proceed, q) is known *)
+  assert (FIN : forall capnum proceed q,
+    (pdo r2 <-
+       (if (negb (capnum =? -1) || proceed) && hd_is q 45 then
+          let q1 := tl q in
+          match q1 with
+          | [] => PE PE_InvalidGroupName q1
+          | c3 :: _ =>
+              if ParseLit.is_digit c3 then
+                pdo r <- decimal q1 ;
+                let '(u, q2) := r in
+                if negb (ct_slot tbm u) then PE E_UndefinedBackRef q2
+                else if hd_is_not q2 close then PE PE_InvalidGroupName q2
+                else POk (u, q2)
+              else if is_word_char c3 then
+                let '(nm, q2) := scan_word is_word_char q1 in
+                match ct_name tbm nm with
+                | None => PE E_UndefinedNameRef q2
+                | Some u => if hd_is_not q2 close then PE PE_InvalidGroupName q2 else POk (u, q2)
+                end
+              else PE PE_InvalidGroupName q1
+          end
+        else POk (-1, q)) ;
+     let '(uncapnum, q3) := r2 in
+     if (negb (capnum =? -1) || negb (uncapnum =? -1)) && hd_is q3 close
+     then POk (Some (mk_node_mn T_Capture o capnum uncapnum), mkGV o false (consume_slot mco capnum a), tl q3)
+     else PE PE_UnrecognizedGrouping (tl q3)) = POk (g, v', q') ->
+    tskip xx q q' /\ gv_o v' = o /\ gv_ign v' = false /\ gv_autocap v' = consume_slot mco capnum a /\ g <> None).
+  { intros capnum proceed q H.
+    match type of H with pbind ?B _ = _ => remember B as r2 eqn:ER2 end.
+    destruct r2 as [[uncapnum q3]|e q3| | |]; cbn [pbind] in H; try discriminate.
+    destruct ((negb (capnum =? -1) || negb (uncapnum =? -1)) && hd_is q3 close) eqn:EC; [|discriminate].
+    injection H as <- <- <-. cbn [gv_o gv_ign gv_autocap].
+    split; [|repeat split; discriminate].
+    eapply (group_name_tail close capnum proceed q _ uncapnum q3 Hc ER2 eq_refl). apply andb_prop in EC. tauto. }
+  unfold Parser.prescan_named, cur. cbv iota. fold cur. cbn [cs_o]. rewrite HEb'.
+  destruct (ParseLit.is_digit c2) eqn:Edig.
+  - (* digits *)
+    destruct (decimal cur) as [[n q]|e q| | |] eqn:D; cbn [pbind] in E; try discriminate.
+    pose proof (decimal_tskip xx _ _ _ D) as TD.
+    destruct (hd_is_not q close && hd_is_not q 45); [discriminate|].
+    match type of E with pbind (if ?cz then _ else _) _ = _ => destruct cz eqn:EZ end; [discriminate|]. cbn [pbind] in E.
+    destruct (FIN _ _ _ E) as [T [F1 [F2 [F3 F4]]]]. split; [|exact F4].
+    destruct (c2 =? 48) eqn:E48.
+    + (* a leading zero: the pre-scan files nothing, the main pass gets no number *)
+      cbn [negb andb]. eexists _, cur. split; [reflexivity|]. split; [eapply tskip_trans; [exact TD | exact T]|].
+      cbn [set_cs_ign cs_o cs_os cs_ign cs_c]. repeat split; auto.
+      rewrite F3, Ha. symmetry.
+      destruct mco_cases as [Em|Em]; [|apply consume_nonmco; exact Em].
+      rewrite Em in EZ |- *. destruct (n =? 0) eqn:En; cbn [negb andb] in EZ |- *.
+      * destruct (ct_slot tbm n); [lia | rewrite <- Em; apply consume_minus1].
+      * rewrite <- Em. apply consume_minus1.
+    + assert (D9 : (49 <=? c2) && (c2 <=? 57) = true) by (unfold ParseLit.is_digit in Edig; lia).
+      rewrite (HD c2 D9). cbn [negb andb]. rewrite D9. cbn [pbind].
+      pose proof (decimal_nonzero _ _ _ _ D9 D) as NZ.
+      destruct mco_cases as [Em|Em].
+      * destruct (note_name_pr_total (cs_o cs) (itoa n) (cs_c cs) HEb') as [c' N].
+        assert (PN : prescan_named is_word_char mco st1 cur = POk (set_cs_ign (set_cs_c st1 c') false, q)).
+        { unfold Parser.prescan_named, cur. cbv iota. fold cur. cbn [cs_o]. rewrite HEb', E48, (HD c2 D9). cbn [negb andb].
+          rewrite D9, D. cbn [pbind]. rewrite Em. cbn [cs_c]. rewrite <- Em, N. reflexivity. }
+        rewrite Em. cbn [cs_c]. rewrite <- Em, N. cbn [pbind].
+        eexists _, q. split; [reflexivity|]. split; [exact T|].
+        cbn [set_cs_ign set_cs_c cs_o cs_os cs_ign cs_c]. repeat split; auto.
+        rewrite F3. rewrite NZ, Em. cbn [negb andb]. rewrite <- Em.
+        apply (named_state (itoa n) c' q N). apply R. exact PN.
+      * rewrite Em. eexists _, q. split; [reflexivity|]. split; [exact T|].
+        cbn [set_cs_ign set_cs_c cs_o cs_os cs_ign cs_c]. repeat split; auto.
+        destruct (note_slot_fields n (cs_c cs)) as [G1 _]. rewrite G1, F3, Ha. symmetry. apply consume_nonmco. exact Em.
+  - destruct (is_word_char c2) eqn:Ew.
+    + (* a name *)
+      destruct (scan_word is_word_char cur) as [nm q] eqn:SW.
+      pose proof (scan_word_tskip xx cur) as TW. rewrite SW in TW. cbn [snd] in TW.
+      destruct (hd_is_not q close && hd_is_not q 45); [discriminate|]. cbn [pbind] in E.
+      destruct (FIN _ _ _ E) as [T [F1 [F2 [F3 F4]]]]. split; [|exact F4].
+      assert (N48 : (c2 =? 48) = false) by (unfold ParseLit.is_digit in Edig; lia).
+      assert (N9 : (49 <=? c2) && (c2 <=? 57) = false) by (unfold ParseLit.is_digit in Edig; lia).
+      rewrite N48. cbn [negb andb]. rewrite N9.
+      destruct (note_name_pr_total (cs_o cs) nm (cs_c cs) HEb') as [c' N]. cbn [cs_c]. rewrite N. cbn [pbind].
+      eexists _, q. split; [reflexivity|]. split; [exact T|].
+      cbn [set_cs_ign set_cs_c cs_o cs_os cs_ign cs_c]. repeat split; auto.
+      rewrite F3. apply (named_state nm c' q N). apply R. unfold Parser.prescan_named, cur. cbv iota. fold cur. cbn [cs_o]. rewrite HEb', N48, Ew. cbn [negb andb].
+      rewrite N9, SW. cbn [cs_c]. rewrite N. reflexivity.
+    + destruct (c2 =? 45) eqn:E45; [|discriminate]. cbn [pbind] in E.
+      destruct (FIN _ _ _ E) as [T [F1 [F2 [F3 F4]]]]. split; [|exact F4].
+      rewrite andb_false_r. eexists _, cur. split; [reflexivity|]. split; [exact T|].
+      cbn [set_cs_ign cs_o cs_os cs_ign cs_c]. repeat split; auto. rewrite F3, Ha. symmetry. apply consume_minus1.
+Qed.
+
+Lemma pyname_sim p2 g v' q' :
+  Parser.group_pyname is_word_char tbm mco (mkGV o false a) p2 = POk (g, v', q') ->
+  (forall cs1 q1, prescan_pyname is_word_char mco st1 (tl p2) = POk (cs1, q1) -> reach cs1 q1) ->
+  longer p2 2 = true /\ hd_is p2 60 = true /\ named_post (prescan_pyname is_word_char mco st1 (tl p2)) v' q' /\ g <> None.
+Proof.
+  intros E R. unfold Parser.group_pyname in E. cbn [gv_o gv_ign gv_autocap] in E.
+  destruct (longer p2 2) eqn:L2; [|discriminate]. cbn [negb] in E.
+  destruct (hd_is p2 60) eqn:H60; [|discriminate]. cbn [negb] in E.
+  destruct p2 as [|c0 [|c1 p4]]; try discriminate. cbn [nth tl] in *.
+  destruct (is_word_char c1) eqn:Ew; [|discriminate]. rewrite HE in E.
+  destruct (scan_word is_word_char (c1 :: p4)) as [nm q] eqn:SW.
+  pose proof (scan_word_tskip xx (c1 :: p4)) as TW. rewrite SW in TW. cbn [snd] in TW.
+  destruct (hd_is_not q 62) eqn:HN; [discriminate|].
+  match type of E with (if ?c then _ else _) = _ => destruct c eqn:EC end; [|discriminate].
+  injection E as <- <- <-. split; [reflexivity|]. split; [reflexivity|]. split; [|discriminate].
+  assert (TQ : tskip xx q (tl q)).
+  { apply tskip_tl with (c := 62); [apply andb_prop in EC; tauto | apply ptriv_intro; intros; lia]. }
+  unfold Parser.prescan_pyname. rewrite Ew. cbn [cs_o]. rewrite HEb', SW. cbn [cs_c].
+  destruct (note_name_pr_total (cs_o cs) nm (cs_c cs) HEb') as [c' N]. rewrite N. cbn [pbind].
+  eexists _, q. split; [reflexivity|]. split; [exact TQ|].
+  cbn [set_cs_ign set_cs_c cs_o cs_os cs_ign cs_c gv_o gv_ign gv_autocap]. repeat split; auto.
+  apply (named_state nm c' q N). apply R. unfold Parser.prescan_pyname. rewrite Ew. cbn [cs_o]. rewrite HEb', SW. cbn [cs_c]. rewrite N. reflexivity.
+Qed.
+
+Lemma open_post_one ign p3 g v' q' cs1 q1 :
+  prescan_open mco cs (40 :: p3) p3 = POk (cs1, q1) ->
+  near (useX (cs_o cs1)) q1 q' ->
+  oeqv (gv_o v') (cs_o cs1) -> cs_ign cs1 = gv_ign v' -> c_autocap (cs_c cs1) = gv_autocap v' ->
+  cs_os cs1 = (match g with Some _ => cs_o cs :: cs_os cs | None => cs_os cs end) ->
+  (gv_ign v' = true -> hd_is q' 40 = true /\ starts_qhash (tl q') = false) ->
+  (hd_is p3 63 = false -> (useN o || ign) = false -> In a (c_caps (cs_c cs1))) ->
+  open_post cs o ign a p3 g v' q'.
+Proof.
+  intros E N H1 H2 H3 H4 H5 H6. exists cs1, q1. split; [apply psteps_one; rewrite step40; exact E|].
+  repeat split; auto; apply H5; assumption.
+Qed.
+
+(* "(?(" : the condition *)
+Lemma cond_sim ign p2 g v' q' :
+  cs_ign cs = ign ->
+  Parser.group_cond is_word_char tbm (mkGV o false a) (40 :: p2) = POk (g, v', q') ->
+  open_post cs o ign a (63 :: 40 :: p2) g v' q'.
+Proof.
+  intros Hign E.
+  (* the first step of the pre-scan: "(?(" pushes the options and sets ignoreNextParen *)
+  set (cs1 := mkCS (cs_c cs) (cs_o cs) (cs_o cs :: cs_os cs) true).
+  assert (S1 : prescan_open mco cs (40 :: 63 :: 40 :: p2) (63 :: 40 :: p2) = POk (cs1, 40 :: p2)).
+  { unfold Parser.prescan_open. cbn [starts_qhash hd_is nth_is skipn tl Z.eqb Pos.eqb andb orb].
+    rewrite !andb_false_r. cbn [andb].
+    replace (scan_options_text (cs_o cs) (40 :: p2)) with (cs_o cs, 40 :: p2) by reflexivity.
+    cbn [hd_is Z.eqb Pos.eqb cs_c cs_o cs_os cs_ign set_cs_ign]. reflexivity. }
+  unfold Parser.group_cond in E. cbn [tl gv_o gv_autocap] in E.
+  (* the expression-condition outcome *)
+  assert (EXPR : forall gg, starts_qhash p2 = false ->
+             open_post cs o ign a (63 :: 40 :: p2) (Some gg) (mkGV o true a) (40 :: p2)).
+  { intros gg Q. eapply open_post_one; [exact S1 | apply near_refl | exact Ho | reflexivity | exact Ha | reflexivity | | intros H; discriminate].
+    intros _. cbn [hd_is tl]. split; [reflexivity | exact Q]. }
+  match type of E with pbind ?A _ = _ => destruct A as [[[gn q1]|]|e q1| | |] eqn:EA end; cbn [pbind] in E; try discriminate.
+  - (* a back-reference condition "(?(n)" / "(?(name)": the pre-scan walks through "(n)" *)
+    injection E as <- <- <-.
+    assert (TK : exists q, tskip xx p2 q /\ hd_is q 41 = true /\ q1 = tl q /\ p2 <> [] /\ hd_is p2 63 = false).
+    { destruct p2 as [|c p2']; [discriminate|].
+      destruct (ParseLit.is_digit c) eqn:Ed.
+      - destruct (decimal (c :: p2')) as [[n q]|e q| | |] eqn:D; cbn [pbind] in EA; try discriminate.
+        destruct (hd_is q 41) eqn:H41; [|discriminate]. destruct (ct_slot tbm n); [|discriminate]. inversion EA; subst.
+        exists q. split; [eapply decimal_tskip; exact D|]. repeat split; auto; try discriminate.
+        cbn [hd_is]. unfold ParseLit.is_digit in Ed. lia.
+      - destruct (is_word_char c) eqn:Ew; [|discriminate]. rewrite HE in EA.
+        pose proof (scan_word_tskip xx (c :: p2')) as TW. destruct (scan_word is_word_char (c :: p2')) as [nm q]. cbn [snd] in TW.
+        destruct (ct_name tbm nm); [|discriminate]. destruct (hd_is q 41) eqn:H41; [|discriminate]. inversion EA; subst.
+        exists q. split; [exact TW|]. repeat split; auto; try discriminate.
+        cbn [hd_is]. apply HW in Ew. unfold zmem in Ew. cbn [existsb] in Ew. lia. }
+    destruct TK as [q [T [H41 [-> [NE H63]]]]].
+    set (cs2 := mkCS (cs_c cs) (cs_o cs) (cs_o cs :: cs_o cs :: cs_os cs) false).
+    assert (S2 : prescan_open mco cs1 (40 :: p2) p2 = POk (cs2, p2)).
+    { unfold Parser.prescan_open. cbn [cs_o cs_os cs_ign cs_c cs1].
+      assert (Q : starts_qhash p2 = false) by (unfold starts_qhash; rewrite H63; reflexivity). rewrite Q, H63.
+      rewrite andb_false_r. reflexivity. }
+    set (cs3 := mkCS (cs_c cs) (cs_o cs) (cs_o cs :: cs_os cs) false).
+    exists cs3, (tl q). split.
+    + eapply ps_step; [rewrite step40; exact S1|]. eapply ps_step; [rewrite step40; exact S2|].
+      eapply psteps_trans; [apply psteps_tskip; exact T|].
+      destruct q as [|c q']; [discriminate|]. cbn [hd_is] in H41. assert (c = 41) by lia. subst c.
+      apply psteps_one. cbn [tl]. exact (step41 cs2 q' (cs_o cs) (cs_o cs :: cs_os cs) eq_refl).
+    + cbn [cs3 cs_o cs_os cs_ign cs_c gv_o gv_ign gv_autocap]. split; [apply near_refl|]. repeat split; auto; discriminate.
+  - (* an expression condition *)
+    assert (Q : starts_qhash p2 = false).
+    { destruct (starts_qhash p2) eqn:Q; [|reflexivity]. exfalso.
+      unfold starts_qhash in Q. apply andb_prop in Q. destruct Q as [Q1 Q2].
+      destruct p2 as [|c0 [|c1 p4]]; try discriminate. cbn [hd_is nth_is skipn] in Q1, Q2.
+      assert (c0 = 63) by lia. assert (c1 = 35) by lia. subst c0 c1. cbn in E. discriminate. }
+    repeat match type of E with (if ?c then _ else _) = _ => destruct c end; try discriminate; injection E as <- <- <-; apply EXPR; exact Q.
+Qed.
+
+End OpenSim.
 
 End Agree.
